@@ -836,6 +836,27 @@ func (e *Env) evalCall(n *ECall) Val {
 			return boolVal(pc)
 		}
 		return boolVal("false")
+	case "nocall":
+		// nocall(name): the function contains no call named `name` at all (a static fact)
+		if len(n.Args) != 1 || vc.fn == nil || vc.callByName == nil {
+			sfail("nocall(name)")
+		}
+		nm := ""
+		switch a := n.Args[0].(type) {
+		case *EIdent:
+			nm = a.Name
+		case *ESel:
+			if pk, ok := a.X.(*EIdent); ok {
+				nm = pk.Name + "." + a.Name
+			}
+		}
+		if nm == "" {
+			sfail("nocall(name)")
+		}
+		if _, found := vc.callByName[nm+"#0"]; found {
+			return boolVal("false")
+		}
+		return boolVal("true")
 	case "callarg":
 		// callarg(name, n, i): i-th argument (receiver first) of the n-th call named `name`
 		if len(n.Args) != 3 || vc.fn == nil || vc.callByName == nil {
